@@ -522,6 +522,11 @@ def run(rep, tier="quick", srcdir=None, only=None):
         rule_TB9(rep, srcdir, tier)
     if want("C06-MP10"):
         rule_MP10(rep, prog, q)
+    if want("C04-AI17"):
+        # "after the last resume every pending item runs": a suspension that lands while a concurrent drainer is parked in front of a barrier must not make the
+        # drainer reserve the barrier's width twice - the queue would be resumed, unlocked and never runnable again (shared with C04)
+        from . import C04
+        C04.rule_AI17(rep, prog, q)
     if want("C18-TB2"):
         # "initially inactive" is one digit of the attribute index: the attribute table decodes every one of its entries as itself (shared with C18)
         from . import C18
